@@ -504,7 +504,10 @@ def eligible(fn, is_method, tail=True):
     is_method = False          # no self: binds like a plain function
   elif fn.decorator_list:
     return False
-  if a.kwarg or a.posonlyargs:
+  if a.posonlyargs:
+    return False
+  if a.kwarg and any(isinstance(n, ast.Name) and n.id == a.kwarg.arg and
+                     not isinstance(n.ctx, ast.Load) for n in ast.walk(fn)):
     return False
   if a.vararg:
     # *rest is supported when it is only ever forwarded as *rest in calls
@@ -867,10 +870,20 @@ def _bind(fn, call, is_method):
     bound[fn.args.vararg.arg] = ast.Tuple(elts=[], ctx=ast.Load())
   for p, a in zip(params, call.args):
     bound[p] = a
+  extra = []
   for k in call.keywords:
-    if k.arg in bound or k.arg not in params + kwonly:
+    if k.arg in bound:
       return None
+    if k.arg not in params + kwonly:
+      if not fn.args.kwarg:
+        return None
+      extra.append(k)
+      continue
     bound[k.arg] = k.value
+  if fn.args.kwarg:
+    # **rest receives the remaining keywords as a fresh dict
+    bound[fn.args.kwarg.arg] = ast.Dict(keys=[ast.Constant(k.arg) for k in extra],
+                                        values=[k.value for k in extra])
   defaults = fn.args.defaults
   for p, d in zip(params[len(params) - len(defaults):], defaults):
     bound.setdefault(p, d)
@@ -878,7 +891,8 @@ def _bind(fn, call, is_method):
     if d is not None:
       bound.setdefault(p, d)
   if set(bound) != set(params + kwonly + (
-      [fn.args.vararg.arg] if fn.args.vararg else [])):
+      [fn.args.vararg.arg] if fn.args.vararg else []) + (
+          [fn.args.kwarg.arg] if fn.args.kwarg else [])):
     return None
   return bound
 
